@@ -224,6 +224,13 @@ impl RtpHeader {
                 break;
             }
 
+            if offset + len > ext.data.len() {
+                // Malformed element in a received extension block: refuse to rewrite it
+                // instead of slicing past the end.
+                self.extension = Some(ext);
+                return Err(RtpError::InvalidHeader("malformed header extension"));
+            }
+
             if ext_id == id {
                 found = true;
                 new_data.push(id_header);
